@@ -334,15 +334,22 @@ def part_interp(ctx, st, model):
     for name, (x, y) in hs.items():
         for j in range(n384):
             add(name, x, y, label_vectors_384(rng), ns=rng.choice([1, 2, 4]),
-                dtype="float32" if j % 3 == 2 else "float64", kd=0)
-    # float32 data on a few small ones
+                dtype=["float64", "float64", "float32", "int16", "float64", "int32"][j % 6], kd=0)
+    # float32 and integer-typed data on a few small ones (an integer array receives the truncated float result)
     for c in rng.sample(cases[:2000], 200):
         c2 = dict(c)
         c2["dtype"] = "float32"
         cases.append(c2)
+    for c in rng.sample(cases[:2000], 300):
+        c2 = dict(c)
+        c2["dtype"] = rng.choice(["int16", "int32", "int64"])
+        c2["kd"] = 0
+        cases.append(c2)
 
     inputs, outs, keep = [], [], []
     weight_checked = set()
+    cut_checked = set()
+    geo_in, geo_out, geo_desc = [], [], []
     for c in cases:
         x, y, labels = c["x"], c["y"], c["labels"]
         scale_f = 2.0 ** (-c["kd"])
@@ -359,8 +366,19 @@ def part_interp(ctx, st, model):
         if key not in weight_checked:
             weight_checked.add(key)
             try:
-                for b in oracle_weights(x, y, labels):
+                wbad, srcs = oracle_weights(x, y, labels)
+                for b in wbad:
                     ctx.fail(b, d, {"op": "interp", "kind": "weights"})
+                # geometry model (op 5): the channels each dead/noisy channel is repaired from, read off the
+                # implementation with identity data, against {not dead/noisy, squared distance <= 5201}
+                if srcs and all(float(v) == int(v) for v in y):
+                    check_weight_cut(ctx, c["geom"], x, y, cut_checked)
+                    geo_in.append([5, len(labels)] + [int(l) for l in labels] + [int(v) for v in x] +
+                                  [int(v) for v in y])
+                    geo_out.append([v for sl in srcs for v in [len(sl)] + sl])
+                    geo_desc.append({"op": "geo", "geom": c["geom"], "x": [int(v) for v in x],
+                                     "y": [float(v) for v in y], "labels": list(labels)})
+                    st.count("geo_source_sets")
             except Exception as e:
                 ctx.fail("interpolate_bad_channels raised %r on identity data" % (e,), d,
                          {"op": "interp", "kind": "exception"})
@@ -381,6 +399,8 @@ def part_interp(ctx, st, model):
                 st.count("interp_bad_at_probe_end")
             if any(a in (1, 2) and b in (1, 2) for a, b in zip(labels, labels[1:])):
                 st.count("interp_adjacent_bad_cluster")
+    common.correspondence(ctx, PROP, HEADER, geo_in, geo_out, lambda i: geo_desc[i], n_kernel=30, shard=15)
+    ctx.coverage["geo_model_evaluations"] = len(geo_in)
     mouts = model.run_many(inputs, nproc=4)
     for c, mo, out in zip(keep, mouts, outs):
         scale = max(1.0, max((abs(v) for r in c["data_int"] for v in r), default=0) * 2.0 ** (-c["kd"]))
@@ -620,9 +640,20 @@ def part_mode(ctx, st, model):
                 elif style < 0.8:     # mostly agreeing batches with a few dissenters; exact ties when nb is even
                     base = [rng.randrange(4) for _ in range(nc)]
                     batches = [[(b if rng.random() < 0.55 else rng.randrange(4)) for b in base] for _ in range(nb)]
-                else:
+                elif style < 0.9:
                     a, b = rng.randrange(4), rng.randrange(4)
                     batches = [[(a if (k + c) % 2 else b) for c in range(nc)] for k in range(nb)]
+                else:    # each channel takes three different labels, none with a strict majority
+                    nb = rng.choice([3, 4, 5, 6, 7, 9, 10])
+                    cols = []
+                    for c in range(nc):
+                        tri = rng.sample(range(4), 3)
+                        q, r = divmod(nb, 3)
+                        col = tri[0:1] * (q + (r > 0)) + tri[1:2] * (q + (r > 1)) + tri[2:3] * q
+                        rng.shuffle(col)
+                        cols.append(col)
+                    batches = [[cols[c][k] for c in range(nc)] for k in range(nb)]
+                    st.count("mode_three_labels_no_majority")
                 calls = []
 
                 def stub(raw, fs, _b=batches, _c=calls, **kw):
@@ -796,7 +827,7 @@ def part_detect(ctx, st):
             x[p] += rs.standard_normal(ns) * 100e-6
             check(x, {p: 2}, {"op": "detect", "seed": seed, "fault": "noisy", "position": p},
                   {"op": "detect", "fault": "noisy", "where": where})
-        sizes = list(range(0, 41)) if ctx.thorough() else [0, 1, 2, 5, 6, 11, 12, 25, 40]
+        sizes = list(range(0, 41)) if ctx.thorough() else [0, 1, 2, 3, 4, 5, 6, 11, 12, 25, 40]
         for k in sizes:
             x = x0.copy()
             if k:
@@ -924,7 +955,7 @@ def replay(ctx, data):
         sc = 2.0 ** (-inp["kd"])
         dat = [[v * sc for v in r] for r in inp["data_int"]]
         out = impl_interp(x, y, inp["labels"], dat, inp["dtype"], inp["label_float"])
-        bad = oracle_interp(x, y, inp["labels"], dat, out, inp["dtype"]) + oracle_weights(x, y, inp["labels"])
+        bad = oracle_interp(x, y, inp["labels"], dat, out, inp["dtype"]) + oracle_weights(x, y, inp["labels"])[0]
         print("labels:", inp["labels"])
         print("implementation output:", out.tolist() if out.size < 200 else out.shape)
         print("property clauses failing on the implementation:", bad)
@@ -949,6 +980,15 @@ def replay(ctx, data):
         print("mode (numpy):", want, " model:", mo)
         print("re-run the check to see the implementation's value (needs the stubbed batches)")
         return 1
+    if op == "geo":
+        x, y = np.array(inp["x"], dtype=np.int64), np.array(inp["y"], dtype=np.float64)
+        wbad, srcs = oracle_weights(x, y, inp["labels"])
+        mo = common.Extracted(PROP).run_many([[5, len(inp["labels"])] + inp["labels"] + inp["x"] +
+                                              [int(v) for v in inp["y"]]], nproc=1)[0]
+        print("labels:", inp["labels"])
+        print("sources per dead/noisy channel, implementation:", srcs[:20])
+        print("model (count, channels ...):", mo[:200])
+        return 1 if (wbad or [v for sl in srcs for v in [len(sl)] + sl] != mo) else 0
     if op == "detrend":
         det = nested_function(V().detect_bad_channels, "detrend")
         out = det(np.array(inp["x"], dtype=np.float64), 11)
